@@ -249,6 +249,12 @@ def timeline_corpus(tier, seed):
     add(dur("1s"), k_from, kf(T, "100%", [("x", "8.5")]), k_to)
     add(dur("1s"), k_to, k_50, k_from)
     add(dur("1s"), k_50, k_25f, k_to)
+    # every repeatable element once more: the same field twice in one keyframe (the later setter wins), an empty keyframe,
+    # each kind of argument given twice
+    add(dur("1s"), k_from, kf(T, "to", [("x", "1.5"), ("y", "2.5"), ("x", "8.5")]))
+    add(dur("1s"), k_from, kf(T, "50%", []), k_to)
+    add(dur("1s"), delay("after 1s"), delay("after 250ms"), rep("2x"), rep("infinite"), k_to)
+    add(dur("1s"), easing("Easing::In"), REVERSE, easing("Easing::OutQuad"), REVERSE, k_from, k_to)
     # merged lists
     S.append({"kind": "merged", "items": [sentence(T, [dur("1s"), k_from, k_to]),
                                           sentence(T, [dur("2s"), delay("after 1s"), k_50])]})
@@ -424,6 +430,10 @@ def animator_corpus(tier, seed):
     C.append({"defaults": {"state": "St::A", "values": ("inline", [("x", "1.5")])},
               "arms": [arm(["St::A"], [tl(dur("1s"), k_to)]), arm(["St::B"], [tl(dur("2s"))]),
                        arm(["St::C", "St::D"], [tl(dur("for 3s"), rep("2x")), tl(dur("1s"), delay("after 500ms"))])]})
+    # a state listed twice in one arm; a single-state arm overridden by a later shared arm
+    C.append({"defaults": None,
+              "arms": [arm(["St::A", "St::A", "St::B"], [tl(dur("1s"), k_to)]), arm(["St::C"], [tl(dur("2s"), k_to2)]),
+                       arm(["St::C", "St::D"], [tl(dur("3s"), k_from, k_to)])]})
     if tier == "thorough":
         rnd = random.Random(seed * 1299709 + 3)
         states = ["St::A", "St::B", "St::C", "St::D"]
